@@ -1,6 +1,7 @@
 package main
 
 import (
+	"encoding/hex"
 	"strconv"
 	"strings"
 	"verifharness/runner"
@@ -26,6 +27,14 @@ func init() {
 	// C12
 	runner.Register("rotate", func(a []string) ([]string, error) {
 		return []string{seqhash.RotateSequence(a[0])}, nil
+	})
+	// C12 on arbitrary byte strings (hex encoded on the protocol)
+	runner.Register("rotatehex", func(a []string) ([]string, error) {
+		raw, err := hex.DecodeString(a[0])
+		if err != nil {
+			return nil, err
+		}
+		return []string{hex.EncodeToString([]byte(seqhash.RotateSequence(string(raw))))}, nil
 	})
 	// C04 / C05
 	runner.Register("hash", func(a []string) ([]string, error) {
